@@ -7,7 +7,7 @@ CONSTANTS
   MaxLocal = 2
   AllowSelfStop = TRUE
   AllowManual = FALSE
-  AllowVariants = FALSE
+  AllowVariants = TRUE
   ExactOffers = FALSE
   EmitScripts = FALSE
 CONSTRAINT Bound
